@@ -67,14 +67,18 @@ func (g *Gen) Doc(max int) Doc {
 				// "inherited (overrides in place), then new" as in spec/Store.tla
 				sc := scope{}
 				order := []string{}
-				for _, p := range []string{"xml", "p", "q", ""} {
+				// (n1..n6: now and then an element declares a burst of further prefixes, so that elements with five to
+				// ten namespace nodes - own and inherited - occur, with and without attributes)
+				prefixes := []string{"xml", "p", "q", "", "n1", "n2", "n3", "n4", "n5", "n6"}
+				burst := g.r.Intn(10) == 0
+				for _, p := range prefixes {
 					if v, ok := inscope[p]; ok {
 						sc[p] = v
 						order = append(order, p)
 					}
 				}
-				for _, p := range []string{"xml", "p", "q", ""} {
-					if g.r.Intn(4) == 0 {
+				for _, p := range prefixes {
+					if (len(p) != 2 && g.r.Intn(4) == 0) || (len(p) == 2 && burst && g.r.Intn(4) != 0) {
 						var u []string
 						switch p {
 						case "xml":
@@ -89,9 +93,7 @@ func (g *Gen) Doc(max int) Doc {
 					}
 				}
 				for _, p := range order {
-					if len(d) < max+8 {
-						add(Node{K: "ns", P: e, Lo: ch(p), V: sc[p]})
-					}
+					add(Node{K: "ns", P: e, Lo: ch(p), V: sc[p]}) // always the complete list: descendants inherit from it
 				}
 				used := map[string]bool{}
 				for a := g.r.Intn(3); a > 0; a-- {
